@@ -178,7 +178,7 @@ pub fn c05(seed: u64) -> Vec<Scenario> {
     let p = P::new(prop, Buy, seed);
     add(Tier::Quick, format!("depwd.{}", p.clone().native().tag()), d, 400, 120, Box::new(t_depwd(p.clone().concrete_prefix().native())));
     add(Tier::Quick, format!("depwd.{}", p.clone().native().sym_funds().tag()), d, 400, 120, Box::new(t_depwd(p.clone().concrete_prefix().native().sym_funds())));
-    add(Tier::Quick, format!("depwd.{}", P::new(prop, Sell, seed).native().sym_funds().attached().tag()), d, 400, 120, Box::new(t_depwd(P::new(prop, Sell, seed).concrete_prefix().native().sym_funds().attached())));
+    add(Tier::Quick, format!("depwd.{}", P::new(prop, Sell, seed).native().sym_funds().tag()), d, 400, 120, Box::new(t_depwd(P::new(prop, Sell, seed).concrete_prefix().native().sym_funds())));
     add(Tier::Quick, format!("open.{}", p.clone().lev().fees().tag()), d, 800, 150, Box::new(t_open(p.clone().lev().fees())));
     v
 }
